@@ -2,6 +2,7 @@ import S2T.Props.C12_Loops
 import S2T.Props.C12_Limits
 import S2T.Props.C12_Amplify
 import S2T.Props.C12_Xml
+import S2T.Props.C12_LoopsSrc
 /-!
 # C12 — extraction cost is bounded by the input; explicit limits hold
 
